@@ -172,13 +172,18 @@ def run_lines(exe, lines, timeout=3000):
     return p.returncode, out, p.stderr.decode("utf-8", "replace")
 
 
+ABORT_SIGS = {}      # request line -> last stderr line of the process that died on it
+
+
 def run_impl(lines, timeout=3000):
     """Run the real code.  A hard crash (abort) is located by bisection."""
     rc, out, err = run_lines(VH, lines, timeout)
     if len(out) == len(lines):
         return out
     # the process died at line len(out): record, continue after it
-    res = out + ["ABORT"]
+    res = out + ["HANG" if "HANG" in err[-200:] else "ABORT"]
+    tail = [l for l in err.strip().split("\n") if l.strip()]
+    ABORT_SIGS[lines[len(out)]] = tail[-1][:300] if tail else ""
     rest = lines[len(out) + 1:]
     if rest:
         res += run_impl(rest, timeout)
